@@ -541,3 +541,15 @@ Fixpoint nodupb (l : list bytes) : bool :=
 
 Fixpoint uniqb (n : anode) : bool :=
   let 'ANode _ _ _ _ _ kids := n in nodupb (map akey kids) && forallb uniqb kids.
+
+(** a set whose post-set hook fails (e.g. [linux.vmcoreinfo.raw] with a row that
+    the parser rejects): set_attr has marked the ancestors and stored the value
+    BEFORE it runs the hook; the hook's status is returned and everything stays
+    as after a successful set *)
+Definition hook_fails (st : status) (r : aout * astate) : aout * astate :=
+  match r with
+  | (AStatus KDUMP_OK, s') => (AStatus st, s')
+  | _ => r
+  end.
+Definition astep_hookfail (st : status) (c : nat) (k : akeyarg) (ty : atype) (v : aval) (s : astate)
+  : aout * astate := hook_fails st (astep (OSet c k ty v) s).
